@@ -145,7 +145,7 @@ type Case struct {
 	NoExclude bool `json:",omitempty"`
 }
 
-var opKinds = []string{"create", "create", "create", "connect", "connect", "connect", "connect", "disconnect", "param", "param", "rename", "producer", "meta", "metadel", "delete", "saveload"}
+var opKinds = []string{"create", "create", "create", "connect", "connect", "connect", "connect", "disconnect", "param", "param", "rename", "producer", "meta", "metadel", "delete", "saveload", "swaparr"}
 
 func favourite(ty string) bool {
 	return strings.Contains(ty, "parameter.") || strings.Contains(ty, "JoinData") || strings.Contains(ty, "FmtData") || strings.Contains(ty, "TextNodeData")
@@ -280,7 +280,8 @@ func runCase(c Case, o *vh.Obs) *vh.Failure {
 	var ns []*nd
 	byID := map[string]*nd{}
 	producers := map[string]string{} // file -> node id
-	meta := map[string]bool{}        // existing leaf paths
+	swaps := 0
+	meta := map[string]bool{} // existing leaf paths
 	seq := 0
 	disconnects, maxArr := 0, 0
 	var lastBurstJoin, lastBurstParam *nd
@@ -515,6 +516,58 @@ func runCase(c Case, o *vh.Obs) *vh.Failure {
 				inst.ConnectNodes(from.id, "Out", to.id, port)
 				to.conn[port] = from.id
 			}
+		case "swaparr":
+			// an array input edited between two evaluations so that its length stays what it was: the
+			// producers are rendered (every node now remembers its dependencies), one element is taken out,
+			// another node - typically a parameter of the same version - is appended, and the graph is saved
+			// and reloaded at once: the edited application must render what the reloaded one renders
+			type aslot struct {
+				n    *nd
+				port string
+				idx  int
+			}
+			var aslots []aslot
+			for _, n := range ns {
+				for _, p := range n.ins {
+					if n.arr[p] {
+						for k := range n.arrConn[p] {
+							aslots = append(aslots, aslot{n, p, k})
+						}
+					}
+				}
+			}
+			if len(aslots) == 0 || len(producers) == 0 {
+				continue
+			}
+			sl := aslots[op.A%len(aslots)]
+			var cands []*nd
+			for _, n := range ns {
+				if n.seq < sl.n.seq && n.outT == sl.n.inT[sl.port] && n.outT != "" && n.id != sl.n.arrConn[sl.port][sl.idx] {
+					cands = append(cands, n)
+				}
+			}
+			if len(cands) == 0 {
+				continue
+			}
+			from := cands[op.C%len(cands)]
+			var pnames []string
+			for f := range producers {
+				pnames = append(pnames, f)
+			}
+			sort.Strings(pnames)
+			for _, f := range pnames {
+				renderWatched(inst, f)
+			}
+			inst.DeleteNodeInputConnection(sl.n.id, fmt.Sprintf("%s.%d", sl.port, sl.idx))
+			l := sl.n.arrConn[sl.port]
+			l = append(append([]string{}, l[:sl.idx]...), l[sl.idx+1:]...)
+			inst.ConnectNodes(from.id, "Out", sl.n.id, fmt.Sprintf("%s.%d", sl.port, len(l)))
+			sl.n.arrConn[sl.port] = append(l, from.id)
+			disconnects++
+			swaps++
+			if f := saveload(step); f != nil {
+				return f
+			}
 		case "disconnect":
 			type slot struct {
 				n    *nd
@@ -690,6 +743,9 @@ func runCase(c Case, o *vh.Obs) *vh.Failure {
 	}
 	if disconnects > 0 {
 		o.Class("history-with-disconnect")
+	}
+	if swaps > 0 {
+		o.Class("array-element-replaced-between-two-evaluations")
 	}
 	if len(producers) > 0 {
 		o.Class("with-producers")
